@@ -169,6 +169,9 @@ func startWorker(o *poolOpts, id int, events chan<- event) (*workerProc, error) 
 	}
 	args := []string{"serve", "-engine", o.engine, "-seed", fmt.Sprint(o.seed), "-tier", o.tier,
 		"-replaydir", o.replayDir, "-sample-every", fmt.Sprint(sampleEvery)}
+	if o.cfg != nil && o.cfg.GenSeparately {
+		args = append(args, "-gen-subprocess")
+	}
 	if o.noShrink {
 		args = append(args, "-no-shrink")
 	}
@@ -313,7 +316,15 @@ func runPoolRecording(o *poolOpts, onRun func(*wline)) *aggregate {
 				assign(w)
 			case "chunkdone":
 				w.hasChunk = false
-				assign(w)
+				if o.cfg.GenSeparately && len(queue) > 0 {
+					// a fresh process per chunk: every chunk starts with the package-level state of
+					// the library untouched
+					w.closing = true
+					w.stdin.Close()
+					spawn()
+				} else {
+					assign(w)
+				}
 			case "start":
 				w.inflight = l.Run
 				w.started = time.Now()
